@@ -72,10 +72,22 @@ pub fn type_id(n: u8) -> U {
 
 /// Canonical names of broker-allocated serials (callee serials, introspection query serials).
 pub const BSERIAL_BASE: u32 = 0x4000_0000;
+/// canonical names of introspection query serials (a separate serial map in the broker)
+pub const QSERIAL_BASE: u32 = 0x5000_0000;
 pub const BSERIAL_BOGUS: u32 = 0x7fff_fff0;
 
 pub fn bserial(idx: u32) -> u32 {
     BSERIAL_BASE + idx
+}
+
+pub fn qserial(idx: u32) -> u32 {
+    QSERIAL_BASE + idx
+}
+
+#[derive(Clone, Copy, Debug, PartialEq, Eq)]
+pub enum SerialNs {
+    Call,
+    Query,
 }
 
 pub fn is_bserial(v: u32) -> bool {
@@ -202,7 +214,9 @@ pub fn render(m: &RefMessage) -> String {
         .iter()
         .map(|a| match a {
             Atom::V(x) => {
-                if is_bserial(*x) {
+                if is_bserial(*x) && *x >= QSERIAL_BASE {
+                    format!("qs{}", x - QSERIAL_BASE)
+                } else if is_bserial(*x) {
                     format!("bs{}", x - BSERIAL_BASE)
                 } else {
                     format!("{x}")
@@ -273,10 +287,12 @@ pub fn from_json(j: &serde_json::Value) -> Option<RefMessage> {
 /// Positions (atom indices) that hold a broker-allocated serial, per direction.
 /// broker -> client: CallFunction / CallFunction2 / AbortFunctionCall / QueryIntrospection carry it
 /// at atom 0; client -> broker: CallFunctionReply / QueryIntrospectionReply at atom 0.
-pub fn broker_serial_pos(kind: u8, to_client: bool) -> Option<usize> {
+pub fn broker_serial_pos(kind: u8, to_client: bool) -> Option<(usize, SerialNs)> {
     match (kind, to_client) {
-        (k::CALL_FUNCTION, true) | (k::CALL_FUNCTION2, true) | (k::ABORT_FUNCTION_CALL, true) | (k::QUERY_INTROSPECTION, true) => Some(0),
-        (k::CALL_FUNCTION_REPLY, false) | (k::QUERY_INTROSPECTION_REPLY, false) => Some(0),
+        (k::CALL_FUNCTION, true) | (k::CALL_FUNCTION2, true) | (k::ABORT_FUNCTION_CALL, true) => Some((0, SerialNs::Call)),
+        (k::QUERY_INTROSPECTION, true) => Some((0, SerialNs::Query)),
+        (k::CALL_FUNCTION_REPLY, false) => Some((0, SerialNs::Call)),
+        (k::QUERY_INTROSPECTION_REPLY, false) => Some((0, SerialNs::Query)),
         _ => None,
     }
 }
@@ -288,6 +304,8 @@ pub struct Maps {
     pub r2c: BTreeMap<U, U>,
     pub s_c2r: BTreeMap<u32, u32>,
     pub s_r2c: BTreeMap<u32, u32>,
+    pub q_c2r: BTreeMap<u32, u32>,
+    pub q_r2c: BTreeMap<u32, u32>,
     /// every real cookie ever bound (to check "never used before")
     pub all_real: Vec<U>,
 }
@@ -306,17 +324,33 @@ impl Maps {
         Ok(())
     }
 
-    pub fn bind_serial(&mut self, canon: u32, real: u32) -> Result<(), String> {
-        if let Some(old) = self.s_r2c.get(&real) {
-            // the broker may reuse a serial value after the call is gone; rebinding is allowed
-            // only when the old canonical name is dead, which the model decides; here we simply
-            // overwrite
+    pub fn bind_serial(&mut self, ns: SerialNs, canon: u32, real: u32) -> Result<(), String> {
+        let (c2r, r2c) = match ns {
+            SerialNs::Call => (&mut self.s_c2r, &mut self.s_r2c),
+            SerialNs::Query => (&mut self.q_c2r, &mut self.q_r2c),
+        };
+        if let Some(old) = r2c.get(&real) {
+            // the broker may reuse a serial value after the entry is gone; overwrite
             let old = *old;
-            self.s_c2r.remove(&old);
+            c2r.remove(&old);
         }
-        self.s_c2r.insert(canon, real);
-        self.s_r2c.insert(real, canon);
+        c2r.insert(canon, real);
+        r2c.insert(real, canon);
         Ok(())
+    }
+
+    pub fn serial_c2r(&self, ns: SerialNs, canon: u32) -> Option<u32> {
+        match ns {
+            SerialNs::Call => self.s_c2r.get(&canon).copied(),
+            SerialNs::Query => self.q_c2r.get(&canon).copied(),
+        }
+    }
+
+    pub fn serial_r2c(&self, ns: SerialNs, real: u32) -> Option<u32> {
+        match ns {
+            SerialNs::Call => self.s_r2c.get(&real).copied(),
+            SerialNs::Query => self.q_r2c.get(&real).copied(),
+        }
     }
 
     /// canonical -> real message, ready to be sent.
@@ -329,10 +363,10 @@ impl Maps {
                 }
             }
         }
-        if let Some(p) = broker_serial_pos(m.kind, false) {
+        if let Some((p, ns)) = broker_serial_pos(m.kind, false) {
             if let Some(Atom::V(x)) = out.atoms.get_mut(p) {
-                if let Some(r) = self.s_c2r.get(x) {
-                    *x = *r;
+                if let Some(r) = self.serial_c2r(ns, *x) {
+                    *x = r;
                 }
             }
         }
@@ -349,10 +383,10 @@ impl Maps {
                 }
             }
         }
-        if let Some(p) = broker_serial_pos(m.kind, true) {
+        if let Some((p, ns)) = broker_serial_pos(m.kind, true) {
             if let Some(Atom::V(x)) = out.atoms.get_mut(p) {
-                if let Some(c) = self.s_r2c.get(x) {
-                    *x = *c;
+                if let Some(c) = self.serial_r2c(ns, *x) {
+                    *x = c;
                 }
             }
         }
